@@ -40,7 +40,7 @@ def proof_jobs(tier):
 def b_kernels(tier):
     from pymbolic.algorithm import extended_euclidean, find_factors, gcd, gcd_many, integer_power, lcm
     import numpy as np
-    b = BoundedRun("kernels", rule="integer_power for x in ints/Fractions/2x2 integer matrices/polynomials and n in 0..12 (negative n must raise); "
+    b = BoundedRun("kernels", rule="integer_power for x in ints/Fractions/2x2 integer matrices (immutable, and mutable with an in-place product, one element and one unit reused for all exponents: arguments unchanged)/polynomials and n in 0..12 (negative n must raise); "
                    "extended_euclidean, gcd, lcm for all integer pairs in a box incl. negative, zero, equal: g = a*q+b*r, |g| = math.gcd, gcd*lcm = |q*r|; "
                    "gcd_many; find_factors(n) for n in 1..400: n1*n2 = n and n1 is the least divisor >= 2 (or n); non-trivial = all cases",
                    bound="box [-24, 24]^2 (quick [-12, 12]^2), n <= 12", functions=["integer_power", "extended_euclidean", "gcd", "gcd_many", "lcm", "find_factors"])
@@ -91,6 +91,45 @@ def b_kernels(tier):
             if r[0] != "val" or not (r[1] == ref):
                 b.fail(Failure("kernels", f"what=integer_power-matrix m={m} n={n}", dict(kind="ipmat", m=repr(m), n=n), expected=repr(ref.a),
                                actual=outcome.describe(r) if r[0] == "exc" else repr(r[1].a), functions=["integer_power"]))
+    # a monoid whose elements are MUTABLE and have an in-place product (*= changes the object): the same element and the same
+    # unit are used for every exponent, so a call that overwrites an argument makes a later call wrong; arguments must be unchanged
+    class MMat:
+        def __init__(self, a):
+            self.a = [list(row) for row in a]
+
+        def _prod(self, o):
+            (p, q), (r_, s) = self.a
+            (t, u), (v, w) = o.a
+            return [[p * t + q * v, p * u + q * w], [r_ * t + s * v, r_ * u + s * w]]
+
+        def __mul__(self, o):
+            return MMat(self._prod(o))
+
+        def __imul__(self, o):
+            self.a = self._prod(o)
+            return self
+
+        def key(self):
+            return tuple(map(tuple, self.a))
+    for m in (((1, 1), (0, 1)), ((2, -1), (0, 3)), ((0, 1), (-1, 0)), ((Fraction(1, 2), 1), (1, 0))):
+        elem, unit = MMat(m), MMat(((1, 0), (0, 1)))
+        for n in list(range(0, 13)) + [17, 31, 32, 33, 5, 2, 0, 3]:
+            ref = Mat(((1, 0), (0, 1)))
+            for _ in range(n):
+                ref = ref * Mat(m)
+            r = outcome.run(lambda: integer_power(elem, n, one=unit))
+            b.case(("ipmut", m, n), sample=dict(matrix=repr(m), n=n, mutable=True))
+            why = None
+            if r[0] != "val" or r[1].key() != ref.a:
+                why = f"value {outcome.describe(r) if r[0] == 'exc' else r[1].key()}"
+            elif elem.key() != m:
+                why = f"the argument x was overwritten: now {elem.key()}"
+            elif unit.key() != ((1, 0), (0, 1)):
+                why = f"the argument one was overwritten: now {unit.key()}"
+            if why:
+                b.fail(Failure("kernels", f"what=integer_power-mutable-monoid m={m} n={n} why={why[:60]}", dict(kind="ipmut", m=repr(m), n=n), expected=f"{ref.a}, arguments unchanged",
+                               actual=why[:200], functions=["integer_power"]))
+                elem, unit = MMat(m), MMat(((1, 0), (0, 1)))
     for q, r_ in itertools.product(range(-R, R + 1), repeat=2):
         res = outcome.run(lambda: extended_euclidean(q, r_))
         b.case(("ee", q, r_), sample=dict(q=q, r=r_))
@@ -209,6 +248,19 @@ def b_poly(tier):
                 b.fail(Failure("polynomials", f"what={opn} p={a.data} q={c.data}", dict(kind="poly", op=opn, p=repr(a.data), q=repr(c.data)),
                                expected="homomorphic, well-formed", actual=(outcome.describe(r) if r[0] == "exc" else repr(getattr(r[1], 'data', r[1])))[:200],
                                functions=[f"Polynomial.__{opn}__"]))
+    # a polynomial and a plain number, in both operand orders (the reflected methods)
+    for a in trees.thin(polys, 60, seed=6):
+        for sc in (3, -2, Fraction(1, 2)):
+            for opn, op in (("add", operator.add), ("sub", operator.sub), ("mul", operator.mul)):
+                for side in ("number-left", "number-right"):
+                    r = outcome.run(lambda: op(sc, a) if side == "number-left" else op(a, sc))
+                    b.case(("mixed", opn, side, repr(a.data), repr(sc)), sample=dict(op=opn, side=side, p=repr(a.data), number=repr(sc)))
+                    want = [op(sc, val(a, t)) if side == "number-left" else op(val(a, t), sc) for t in pts]
+                    ok = r[0] == "val" and all(val(r[1], t) == w for t, w in zip(pts, want)) and wf(r[1])
+                    if not ok:
+                        b.fail(Failure("polynomials", f"what=mixed-{opn}-{side} p={a.data} number={sc!r}", dict(kind="poly", op=f"mixed-{opn}-{side}", p=repr(a.data), number=repr(sc)),
+                                       expected="homomorphic, well-formed", actual=(outcome.describe(r) if r[0] == "exc" else repr(getattr(r[1], 'data', r[1])))[:200],
+                                       functions=[f"Polynomial.__{'r' if side == 'number-left' else ''}{opn}__"]))
     for a in trees.thin(polys, max(1, len(polys) // 2), seed=3):
         for n in (0, 1, 2, 3):
             r = outcome.run(lambda: a ** n)
